@@ -130,6 +130,7 @@ fn concurrent_crash(tape: &mut Tape, ctx: &RunCtx) -> RunOut {
         preexisting: true,
         clock_small: true,
         sampled_faults: false,
+        debris: true,
     };
     let mut run = run_conc(tape, &cfg, ctx.detail);
     let mut out = RunOut::default();
